@@ -118,6 +118,10 @@ func QuickCfgs() []Cfg {
 		c.Restart = ri
 		add(c)
 	}
+	// unusual values: a restart interval larger than any block, blocks above 64 KiB
+	add(Cfg{Restart: 1000})
+	add(Cfg{BlockSize: 1 << 17, Restart: 1})
+	add(Cfg{BlockSize: 1 << 17, Unaligned: true, SHA256: true})
 	for i := 0; i < 4; i++ {
 		c := def
 		switch i {
@@ -402,9 +406,12 @@ func F2Names(n int, style string, bs uint32) []string {
 }
 
 // F2 yields block-structure tables: n records, three name styles, refs only / logs only / both.
-func F2(cfg Cfg, counts []int, yield func(*Case)) {
+func F2(cfg Cfg, counts []int, yield func(*Case)) { F2At(cfg, counts, 3, yield) }
+
+// F2At is F2 with the table's minimum update index at min (the maximum is min+4).
+func F2At(cfg Cfg, counts []int, min uint64, yield func(*Case)) {
 	hs := cfg.HashSize()
-	min, max := uint64(3), uint64(7)
+	max := min + 4
 	for _, n := range counts {
 		for _, style := range []string{"shared", "distinct", "long"} {
 			names := F2Names(n, style, cfg.BlockSize)
